@@ -63,20 +63,28 @@ def removeFirst (k : Iri) : List Iri → List Iri
   | [] => []
   | x :: xs => if x == k then xs else x :: removeFirst k xs
 
+/-- writes to the ResponseWriter -/
+def Call.isWrite : Call → Bool
+  | .writeHeader _ | .setHeader _ _ | .writeBody _ => true
+  | _ => false
+
 /-- held = ids currently locked by the request.  Violations: locking an id already held (when `reentry`
-is checked), unlocking an id not held, a Database access while nothing is held. -/
-def lockMonG (reentry : Bool) : Mon where
+is checked), unlocking an id not held, a Database access while nothing is held — and, when `allowWrite` is
+off, any write to the ResponseWriter or authentication call (used to show that the side-effect code never
+touches the response: C10). -/
+def lockMonG (reentry allowWrite : Bool) : Mon where
   S := List Iri
   step held c r :=
+    if !allowWrite && (c.isWrite || c.isAuth) then none else
     match c with
     | .lock k => if reentry && held.contains k then none else if respOk (.lock k) r then some (k :: held) else some held
     | .unlock k => if held.contains k then some (removeFirst k held) else none
     | c => if c.isDbAccess && held.isEmpty then none else some held
 
 /-- the full lock discipline of C09 -/
-abbrev lockMon : Mon := lockMonG true
+abbrev lockMon : Mon := lockMonG true true
 /-- C09 without the "never locked again while held" clause (balance, no stray Unlock, access under lock) -/
-abbrev balanceMon : Mon := lockMonG false
+abbrev balanceMon : Mon := lockMonG false true
 
 /-! ### C07: nothing before authentication (and, for inbox POSTs, the block check) -/
 
@@ -109,17 +117,34 @@ def handlerGateMon : Mon where
 structure OnceSt where
   statuses : List Nat := []     -- WriteHeader calls so far
   bodies : Nat := 0
+  denied : Bool := false        -- the application's authentication answered "not authenticated" (it writes its own response)
+  writeFailed : Bool := false   -- the body write failed or was short
   deriving Repr, DecidableEq
+
+def authDenied : (c : Call) → c.Resp → Bool
+  | .authGetInbox, .ok false | .authGetOutbox, .ok false | .authPostInbox, .ok false | .authPostOutbox, .ok false => true
+  | _, _ => false
+
+def bodyWritten : (c : Call) → c.Resp → Bool
+  | .writeBody _, .ok true => true
+  | _, _ => false
 
 /-- at most one status, headers only before it, a body only after it -/
 def onceMon : Mon where
   S := OnceSt
-  step s c _ :=
+  step s c r :=
     match c with
     | .writeHeader code => if s.statuses.isEmpty then some { s with statuses := [code] } else none
     | .setHeader _ _ => if s.statuses.isEmpty then some s else none
-    | .writeBody _ => if s.statuses.length == 1 && s.bodies == 0 then some { s with bodies := 1 } else none
-    | _ => some s
+    | .writeBody b => if s.statuses.length == 1 && s.bodies == 0
+        then some { s with bodies := 1, writeFailed := !bodyWritten (.writeBody b) r } else none
+    | c => some { s with denied := s.denied || authDenied c r }
+
+/-- the three end states of C10 (`none` = the handler returned an error) -/
+def onceEnd (notHandled : α → Bool) (s : OnceSt) : Option α → Prop
+  | some a => if notHandled a then s.statuses = [] ∧ s.bodies = 0
+              else (s.statuses.length = 1 ∧ s.writeFailed = false) ∨ (s.denied = true ∧ s.statuses = [])
+  | none => s.statuses = [] ∨ s.writeFailed = true
 
 /-! ### C05: identify, store, list in the outbox, then deliver; nothing delivered after a failed step -/
 
